@@ -93,6 +93,19 @@ def one(M, rec, rng, g, desc, pars, st):
     d2, p2, pv2 = perturbed(desc, pars, keys, rng, sym.param_name)
     variants = [("nominal", desc, pars, sym.pvalues)]
     variants.append(("perturbed", d2, p2, {k: pv2[k] for k in sym.parameters}))
+    a_keys = [k_ for k_ in keys if k_[1] == "a" and not isinstance(sym.param_name.get(k_), tuple)]
+    if a_keys and not opts.get("positive_init_density"):
+        # a symbolic exponent evaluated at an exact integer, at a state with a (transiently) negative density:
+        # the number 2 substituted for `a` gives a finite x**2 there
+        d3, pv3 = copy.deepcopy(d2), dict({k: pv2[k] for k in sym.parameters})
+        for (eid_, _a) in a_keys:
+            val_ = float(rng.choice((2, 3, 1)))
+            for l_ in d3["links"]:
+                if l_["id"] == eid_:
+                    l_["a"] = val_
+            pv3[sym.param_name[(eid_, "a")]] = val_
+        variants.append(("integer exponent, negative density", d3, p2, pv3))
+        rec.count("cases_with_a_symbolic_exponent_at_an_integer")
     for vname, dN, pN, pvals in variants:
         try:
             num = CC.CompileCase(M, rng, dN, pN, st, (), opts, ops=ops)
@@ -140,6 +153,10 @@ def one(M, rec, rng, g, desc, pars, st):
                 rec.violation(f"{PROP}:compact={compact}: function with declared parameters has free symbols", dict(ctx, free=str(Fs.get_free())))
             for _pt in range(2):
                 _, vals = g.values(dN, allow_inf=False)
+                if vname.startswith("integer exponent"):
+                    for (eid_, _a) in a_keys:
+                        i_ = rng.randrange(len(vals[eid_]["rho"]))
+                        vals[eid_]["rho"][i_] = -abs(vals[eid_]["rho"][i_]) * 0.05 - 0.2
                 if R.is_singular(dN, vals):
                     rec.count("skipped_singular")
                     continue
